@@ -61,7 +61,7 @@ theorem flatten_set (n : Nat) : ∀ rows : List (List V), (∀ r ∈ rows, r.len
     cases i with
     | zero =>
       simp at hr; subst hr
-      simp [List.set_append, show j < r0.length by omega]
+      simp [show j < r0.length by omega]
     | succ i =>
       simp at hr
       have e : (i + 1) * n + j = r0.length + (i * n + j) := by rw [hr0]; ring
@@ -179,5 +179,158 @@ theorem U3.write {k0 k1 k2 : Nat} {a : MArr3 V} (h : Shape3 k0 k1 k2 a) (i j k :
     unfold flat3
     rw [List.map_set, show List.flatten p' = (flat2 a[i]).set (j * k2 + k) v from hf', this]
     congr 1; ring
+
+/-! ### C. constructors from a flat sequence -/
+
+/-- `body` takes exactly `c` items from the front of the input, yields `a` with `P a` whose cells `fl a` are the
+    consumed items, and panics when fewer than `c` items are left -/
+structure Consumes {A : Type} (body : List V → Option (A × List V)) (c : Nat) (P : A → Prop) (fl : A → List V) :
+    Prop where
+  ok : ∀ l, c ≤ l.length → ∃ a, body l = some (a, l.drop c) ∧ P a ∧ fl a = l.take c
+  short : ∀ l, l.length < c → body l = none
+
+theorem Consumes.congr {A : Type} {body : List V → Option (A × List V)} {c c' : Nat} {P P' : A → Prop}
+    {fl fl' : A → List V} (h : Consumes body c P fl) (hc : c = c') (hP : ∀ a, P a → P' a)
+    (hfl : ∀ a, P a → fl a = fl' a) : Consumes body c' P' fl' := by
+  subst hc
+  refine ⟨fun l hl => ?_, h.short⟩
+  obtain ⟨a, h1, h2, h3⟩ := h.ok l hl
+  exact ⟨a, h1, hP a h2, by rw [← hfl a h2, h3]⟩
+
+theorem repeatM_consumes {A : Type} {body : List V → Option (A × List V)} {c : Nat} {P : A → Prop}
+    {fl : A → List V} (h : Consumes body c P fl) : ∀ m,
+    Consumes (repeatM body m) (m * c) (fun as => as.length = m ∧ ∀ a ∈ as, P a)
+      (fun as => (as.map fl).flatten) := by
+  intro m
+  induction m with
+  | zero => exact ⟨fun l _ => ⟨[], by simp [repeatM]⟩, fun l hl => by simp at hl⟩
+  | succ m ih =>
+    refine ⟨fun l hl => ?_, fun l hl => ?_⟩
+    · have hc : c ≤ l.length := by nlinarith
+      obtain ⟨a, h1, h2, h3⟩ := h.ok l hc
+      have hm : m * c ≤ (l.drop c).length := by simp; rw [Nat.succ_mul] at hl; omega
+      obtain ⟨as, g1, g2, g3⟩ := ih.ok (l.drop c) hm
+      refine ⟨a :: as, ?_, ⟨by simp [g2.1], ?_⟩, ?_⟩
+      · simp only [repeatM, h1, g1, Option.map_some, List.drop_drop]
+        congr 3; ring
+      · intro x hx
+        rcases List.mem_cons.mp hx with rfl | hx
+        · exact h2
+        · exact g2.2 x hx
+      · simp only [List.map_cons, List.flatten_cons, h3, g3]
+        rw [show (m + 1) * c = c + m * c by ring, List.take_add]
+    · by_cases hc : c ≤ l.length
+      · obtain ⟨a, h1, _, _⟩ := h.ok l hc
+        have : (l.drop c).length < m * c := by simp; rw [Nat.succ_mul] at hl; omega
+        simp [repeatM, h1, ih.short _ this]
+      · simp [repeatM, h.short l (by omega)]
+
+theorem takeUnwrap_consumes : ∀ n, Consumes (V := V) (takeUnwrap n) n (fun r => r.length = n) id := by
+  intro n
+  induction n with
+  | zero => exact ⟨fun l _ => ⟨[], by simp [takeUnwrap]⟩, fun l hl => by simp at hl⟩
+  | succ n ih =>
+    refine ⟨fun l hl => ?_, fun l hl => ?_⟩
+    · cases l with
+      | nil => simp at hl
+      | cons x xs =>
+        obtain ⟨r, h1, h2, h3⟩ := ih.ok xs (by simpa using hl)
+        exact ⟨x :: r, by simp [takeUnwrap, h1], by simp [h2], by simp at h3 ⊢; exact h3⟩
+    · cases l with
+      | nil => rfl
+      | cons x xs => simp [takeUnwrap, ih.short xs (by simpa using hl)]
+
+theorem rows_consumes (k0 k1 : Nat) :
+    Consumes (V := V) (repeatM (takeUnwrap k1) k0) (k0 * k1) (Shape2 k0 k1) flat2 :=
+  (repeatM_consumes (takeUnwrap_consumes k1) k0).congr rfl (fun _ h => h) (fun _ _ => by simp [flat2])
+
+theorem planes_consumes (k0 k1 k2 : Nat) :
+    Consumes (V := V) (repeatM (repeatM (takeUnwrap k2) k1) k0) (k0 * k1 * k2) (Shape3 k0 k1 k2) flat3 :=
+  (repeatM_consumes (rows_consumes k1 k2) k0).congr (by ring) (fun _ h => h) (fun _ _ => rfl)
+
+theorem U2.fromIter_ok (k0 k1 : Nat) (l : List V) (h : k0 * k1 ≤ l.length) :
+    ∃ a, MArr2.fromIter k0 k1 l = some a ∧ Shape2 k0 k1 a ∧ flat2 a = l.take (k0 * k1) := by
+  obtain ⟨a, h1, h2, h3⟩ := (rows_consumes k0 k1).ok l h
+  exact ⟨a, by simp [MArr2.fromIter, h1], h2, h3⟩
+
+theorem U2.fromIter_short (k0 k1 : Nat) (l : List V) (h : l.length < k0 * k1) : MArr2.fromIter k0 k1 l = none := by
+  simp [MArr2.fromIter, (rows_consumes k0 k1).short l h]
+
+theorem U3.fromIter_ok (k0 k1 k2 : Nat) (l : List V) (h : k0 * k1 * k2 ≤ l.length) :
+    ∃ a, MArr3.fromIter k0 k1 k2 l = some a ∧ Shape3 k0 k1 k2 a ∧ flat3 a = l.take (k0 * k1 * k2) := by
+  obtain ⟨a, h1, h2, h3⟩ := (planes_consumes k0 k1 k2).ok l h
+  exact ⟨a, by simp [MArr3.fromIter, h1], h2, h3⟩
+
+theorem U3.fromIter_short (k0 k1 k2 : Nat) (l : List V) (h : l.length < k0 * k1 * k2) :
+    MArr3.fromIter k0 k1 k2 l = none := by
+  simp [MArr3.fromIter, (planes_consumes k0 k1 k2).short l h]
+
+/-- labelled rows: `MArrD1::from_iter(v.drain(0..d))` -/
+theorem drainRow_consumes (d : Nat) :
+    Consumes (V := V) (drainRow d) d (fun r => Shape1 d r.toU) (fun r => flat1 r.toU) := by
+  refine ⟨fun l hl => ?_, fun l hl => ?_⟩
+  · refine ⟨⟨l.take d⟩, ?_, by simp [Shape1, MArrD1.toU, hl], rfl⟩
+    simp [drainRow, vecDrain, hl, MArrD1.fromIter, MArrD1.new]
+  · simp [drainRow, vecDrain, Nat.not_le.mpr hl]
+
+theorem toU2_mk (rows : List (MArrD1 V)) : (MArrD2.mk ⟨rows⟩).toU = rows.map MArrD1.toU := rfl
+theorem toU3_mk (planes : List (MArrD2 V)) : (MArrD3.mk ⟨planes⟩).toU = planes.map MArrD2.toU := rfl
+
+theorem shape2_of_rows {d0 d1 : Nat} {rows : List (MArrD1 V)} (h : rows.length = d0 ∧ ∀ r ∈ rows, Shape1 d1 r.toU) :
+    Shape2 d0 d1 (rows.map MArrD1.toU) := by
+  refine ⟨by simp [h.1], fun r hr => ?_⟩
+  obtain ⟨x, hx, rfl⟩ := List.mem_map.mp hr
+  exact h.2 x hx
+
+theorem shape3_of_planes {d0 d1 d2 : Nat} {ps : List (MArrD2 V)}
+    (h : ps.length = d0 ∧ ∀ p ∈ ps, Shape2 d1 d2 p.toU) : Shape3 d0 d1 d2 (ps.map MArrD2.toU) := by
+  refine ⟨by simp [h.1], fun r hr => ?_⟩
+  obtain ⟨x, hx, rfl⟩ := List.mem_map.mp hr
+  exact h.2 x hx
+
+theorem drainPlane_consumes (d1 d2 : Nat) :
+    Consumes (V := V) (drainPlane d1 d2) (d1 * d2) (fun p => Shape2 d1 d2 p.toU) (fun p => flat2 p.toU) := by
+  have hc := repeatM_consumes (drainRow_consumes (V := V) d2) d1
+  refine ⟨fun l hl => ?_, fun l hl => ?_⟩
+  · obtain ⟨rows, h1, h2, h3⟩ := hc.ok l hl
+    refine ⟨⟨⟨rows⟩⟩, ?_, ?_, ?_⟩
+    · simp [drainPlane, h1, MArrD2.new, MArrD1.new, h2.1]
+    · rw [toU2_mk]; exact shape2_of_rows h2
+    · rw [toU2_mk, ← h3]; simp [flat2, flat1]
+  · simp [drainPlane, hc.short l hl]
+
+theorem L2.fromIter_ok (d0 d1 : Nat) (l : List V) (h : d0 * d1 ≤ l.length) :
+    ∃ a, MArrD2.fromIter d0 d1 l = some a ∧ Shape2 d0 d1 a.toU ∧ flat2 a.toU = l.take (d0 * d1) := by
+  obtain ⟨a, h1, h2, h3⟩ := (drainPlane_consumes d0 d1).ok l h
+  refine ⟨a, ?_, h2, h3⟩
+  simp only [drainPlane] at h1
+  unfold MArrD2.fromIter
+  cases hr : repeatM (drainRow d1) d0 l with
+  | none => simp [hr] at h1
+  | some pr =>
+    obtain ⟨rows, rest⟩ := pr
+    simp only [hr] at h1
+    cases hn : MArrD2.new d0 rows with
+    | none => simp [hn] at h1
+    | some p => simp [hn] at h1; show MArrD2.new d0 rows = some a; rw [hn, h1.1]
+
+theorem L2.fromIter_short (d0 d1 : Nat) (l : List V) (h : l.length < d0 * d1) : MArrD2.fromIter d0 d1 l = none := by
+  have := (repeatM_consumes (drainRow_consumes (V := V) d1) d0).short l h
+  simp [MArrD2.fromIter, this]
+
+theorem L3.fromIter_ok (d0 d1 d2 : Nat) (l : List V) (h : d0 * d1 * d2 ≤ l.length) :
+    ∃ a, MArrD3.fromIter d0 d1 d2 l = some a ∧ Shape3 d0 d1 d2 a.toU ∧ flat3 a.toU = l.take (d0 * d1 * d2) := by
+  have hc := repeatM_consumes (drainPlane_consumes (V := V) d1 d2) d0
+  obtain ⟨ps, h1, h2, h3⟩ := hc.ok l (by rw [← Nat.mul_assoc]; exact h)
+  refine ⟨⟨⟨ps⟩⟩, ?_, ?_, ?_⟩
+  · simp [MArrD3.fromIter, h1, MArrD3.new, MArrD1.new, h2.1]
+  · rw [toU3_mk]; exact shape3_of_planes h2
+  · rw [toU3_mk, ← Nat.mul_assoc] at *
+    rw [← h3]; simp [flat3, flat2, Function.comp_def]
+
+theorem L3.fromIter_short (d0 d1 d2 : Nat) (l : List V) (h : l.length < d0 * d1 * d2) :
+    MArrD3.fromIter d0 d1 d2 l = none := by
+  have := (repeatM_consumes (drainPlane_consumes (V := V) d1 d2) d0).short l (by rw [← Nat.mul_assoc]; exact h)
+  simp [MArrD3.fromIter, this]
 
 end SLV.MArr
